@@ -185,6 +185,10 @@ pub struct ReaderCfg {
     pub overrides: Vec<Override>,
     /// a sticky fault is lifted ("device comes back") when the epilogue starts
     pub heal_at_epilogue: bool,
+    /// after the first delivered failure the reader behaves cleanly (full reads, no EINTR):
+    /// legal misbehaviour leads up to and surrounds the fault, but what happens afterwards
+    /// cannot be an effect of short reads (C17 multi-fault runs)
+    pub clean_after_failure: bool,
 }
 
 impl ReaderCfg {
@@ -195,6 +199,7 @@ impl ReaderCfg {
             init_pos: 0,
             overrides: Vec::new(),
             heal_at_epilogue: false,
+            clean_after_failure: false,
         }
     }
     pub fn to_json(&self) -> J {
@@ -203,6 +208,7 @@ impl ReaderCfg {
             .with("profile", self.profile.to_json())
             .with("init_pos", J::u(self.init_pos))
             .with("heal_at_epilogue", J::Bool(self.heal_at_epilogue))
+            .with("clean_after_failure", J::Bool(self.clean_after_failure))
             .with(
                 "overrides",
                 J::Arr(self.overrides.iter().map(|o| o.to_json()).collect()),
@@ -218,6 +224,10 @@ impl ReaderCfg {
             init_pos: j.gu("init_pos"),
             heal_at_epilogue: j
                 .get("heal_at_epilogue")
+                .and_then(|b| b.as_bool())
+                .unwrap_or(false),
+            clean_after_failure: j
+                .get("clean_after_failure")
                 .and_then(|b| b.as_bool())
                 .unwrap_or(false),
             overrides: j
@@ -549,7 +559,11 @@ impl Read for SimReader {
             }
         }
         // 4. legal behaviour per profile
-        let (dec, k) = decide(s.cfg.run_seed, s.cur_op, call, &s.cfg.profile);
+        let (dec, k) = if s.cfg.clean_after_failure && s.failure_ever {
+            (DEC_FULL, 0)
+        } else {
+            decide(s.cfg.run_seed, s.cur_op, call, &s.cfg.profile)
+        };
         match dec {
             DEC_EINTR => {
                 s.counters.eintr += 1;
